@@ -41,8 +41,10 @@ def allowedReceivers : List String :=
 only, by reference, set a weak back-link and do nothing else; `init_solve` stores COPIES; the sub-units are fed the
 parent's in-profile and then each other's return value; `solve` returns a fresh public copy of `out_profile`;
 no function of the solve procedure assigns to anything but the allowed receivers (never to `in_profile`, a
-template or a groove) -/
+template or a groove); the hook value cache of an object is bound in ONE place of the whole package, to a new empty
+dict when the object is created (`HookHost.__init__`) - no object adopts the cache of another -/
 theorem translated_shapes_certified :
+    Gen.C12.cacheBindings = [("hooks.py:HookHost.__init__", "self", "dict()")] ∧
     Gen.C12.profileInit = { publicOnly := true, byReference := true, weakBackLink := true, other := [] } ∧
     Gen.C12.rollInit = { publicOnly := true, byReference := true, weakBackLink := true, other := [] } ∧
     Gen.C12.solveWrites.all (fun w => allowedReceivers.contains w.2.1) = true ∧
@@ -54,7 +56,7 @@ theorem translated_shapes_certified :
        ("Unit._solve_subunits", "last_profile", "u.solve(last_profile)"),
        ("Unit.solve", "return",
         "BaseProfile(**{k: v for k, v in self.out_profile.__dict__.items() if not k.startswith('_')}) <- post_processor.solve(out_profile)")] :=
-  ⟨by decide, by decide, by decide, rfl⟩
+  ⟨by decide, by decide, by decide, by decide, rfl⟩
 
 /-! ## a concrete state for the non-vacuity examples
 
@@ -150,6 +152,73 @@ example : ((targets (ex1.tr.drop ex0.tr.length)).filter (· < ex0.h.next)).erase
 example : stableKind (ex0.h.obj 2).kind ∧ stableKind (ex0.h.obj 4).kind ∧ stableKind (ex0.h.obj 5).kind ∧
     stableKind (ex0.h.obj 1).kind := by
   unfold stableKind; decide
+
+/-! ## 1b. the hook value cache (`__cache__`) -/
+
+/-- Both shallow copies — the in- and out-profile made from the incoming profile, the returned profile made from the
+out-profile, the pass roll made from the roll TEMPLATE — start with an empty cache of their own, whatever has been
+evaluated on the template already (a roll the caller looked at before he built the pass from it).
+(That the constructors do nothing beyond what the model does is `translated_shapes_certified`: `other = []`.) -/
+theorem copies_start_with_own_empty_cache (h : H) (k : Kind) (unit : Option Nat) (pass tpl : Nat) :
+    (profCopy h k unit tpl).cache = [] ∧ (rollCopy h pass tpl).cache = [] := ⟨rfl, rfl⟩
+
+/-- Cache changes are effects of the trace like any other write (`Eff.cachew`), so `solve_writes_only_owned` covers
+them: a solve fills / re-evaluates / pops only the caches of objects it allocated or the unit owns.  For the inputs:
+the cache of the caller's profile, of every roll template, groove, plain or in-profile is exactly what it was -
+also when it was NOT empty before (values read before the object was handed over). -/
+theorem solve_leaves_input_caches (fuel : Nat) (s : S) (u p : Nat) (g : Good s) (hu : u < s.h.next)
+    (hp : p < s.h.next) (hk : (s.h.obj u).kind = .unit) (q : Nat) (hq : q < s.h.next)
+    (hs : stableKind (s.h.obj q).kind) :
+    ((solveU P fuel s u p).1.h.obj q).cache = (s.h.obj q).cache ∧
+    ∀ t, (solveU P fuel s u p).1.tr = s.tr ++ t → Eff.cachew q ∉ t := by
+  obtain ⟨h1, h2⟩ := solve_never_touches_inputs fuel s u p g hu hp hk q hq hs
+  refine ⟨by rw [h1], ?_⟩
+  intro t ht hmem
+  apply h2 t ht
+  simp only [targets, List.mem_filterMap]
+  exact ⟨_, hmem, rfl⟩
+
+/-- no leak between positions: the roll of ANOTHER pass (not below the unit being solved) keeps its entries and its
+cache - also when both passes were built from one template -/
+theorem other_roll_untouched (fuel : Nat) (s : S) (u p r : Nat) (w : Wf s.h) (hu : u < s.h.next)
+    (hp : p < s.h.next) (hr : r < s.h.next) (hn : ¬ Owned s.h u r) :
+    (solveU P fuel s u p).1.h.obj r = s.h.obj r := solve_frame fuel s u p w hu hp r hr hn
+
+-- non-vacuity: the caller has looked at the roll template 5 (two names cached) and builds a SECOND pass from it:
+-- unit 13, list 14, roll 15
+def exC : S :=
+  let s0 := ex0.setCache 5 [31, 32]
+  let s1 := (s0.alloc { kind := .unit, tag := 1 }).1
+  let s2 := (s1.alloc { kind := .subList, weak := some 13 }).1
+  let s3 := s2.write 13 fSUB 14
+  let s4 := (s3.alloc (rollCopy s3.h 13 5)).1
+  s4.write 13 fROLL 15
+
+theorem exC_good : Good exC := by
+  have g0 := ex0_good.setCache (o := 5) (c := [31, 32]) (by decide)
+  have g1 := g0.alloc { kind := .unit, tag := 1 } (by decide) (by decide) (by decide)
+  have g2 := g1.alloc { kind := .subList, weak := some 13 } (by decide) (by decide) (by decide)
+  have g3 := g2.write (o := 13) (f := fSUB) (v := 14) (by decide) (by decide) (by decide)
+  have g4 := g3.alloc { kind := .passRoll, fields := [(fGROOVE, 4)], weak := some 13 } (by decide) (by decide) (by decide)
+  exact g4.write (o := 13) (f := fROLL) (v := 15) (by decide) (by decide) (by decide)
+
+def exCi : S := { exC with its := [2, 1, 1, 1, 1, 1, 1, 1, 1] }
+def exC1 : S := (solveU P 4 exCi 11 2).1
+
+-- both pass rolls start with an empty cache although the template's is not
+example : (exC.h.obj 5).cache = [31, 32] ∧ (exC.h.obj 8).cache = [] ∧ (exC.h.obj 15).cache = [] ∧
+    getF exC.h 8 fGROOVE = getF exC.h 15 fGROOVE := by decide
+-- solving the sequence 11 (pass 6 with roll 8): the template 5 and the other pass's roll 15 are exactly as before,
+-- roll 8 has cached values; among the objects that existed, caches changed on 6, 8, 9, 11 only
+set_option maxRecDepth 100000 in
+example : exC1.h.obj 5 = exC.h.obj 5 ∧ exC1.h.obj 15 = exC.h.obj 15 ∧ (exC1.h.obj 8).cache = [cROLL] ∧
+    ((exC1.tr.drop exC.tr.length).filterMap (fun e => match e with | .cachew o => some o | _ => none)).eraseDups.filter
+      (· < exC.h.next) = [6, 8, 9, 11] := by decide
+-- then the second pass 13 solved alone: now ITS roll 15 has cached values, roll 8 and the template are untouched
+set_option maxRecDepth 100000 in
+example : ((solveU P 3 { exC1 with its := [1, 1] } 13 2).1.h.obj 15).cache = [cROLL] ∧
+    (solveU P 3 { exC1 with its := [1, 1] } 13 2).1.h.obj 8 = exC1.h.obj 8 ∧
+    (solveU P 3 { exC1 with its := [1, 1] } 13 2).1.h.obj 5 = exC.h.obj 5 := by decide
 
 /-! ## 2. the returned profile is fresh -/
 
